@@ -75,24 +75,34 @@ func enumC15(tier string, shard, nshards int, yield func(C15Case) bool) (bool, s
 // background reads a moment to arrive before counting (waiting can only reveal more reads; code
 // without background reads is unaffected).
 func countingDiff(w *core.World, oldT, newT *mast.Mast, settle bool, w2s ...*core.World) (loads [3]int, err error) {
+	sets, err := countingDiffSets(w, oldT, newT, settle, w2s...)
+	for i := range sets {
+		loads[i] = len(sets[i])
+	}
+	return loads, err
+}
+
+func countingDiffSets(w *core.World, oldT, newT *mast.Mast, settle bool, w2s ...*core.World) (loads [3]map[string]bool, err error) {
 	worlds := []*core.World{w}
 	if len(w2s) > 0 && w2s[0] != w && w2s[0] != nil {
 		worlds = append(worlds, w2s[0])
 	}
-	measure := func(what string, f func() error) (int, error) {
+	measure := func(what string, f func() error) (map[string]bool, error) {
 		marks := make([]int, len(worlds))
 		for i, x := range worlds {
 			marks[i] = x.Store.Mark()
 		}
 		if err := core.Safely(what, f); err != nil {
-			return 0, err
+			return nil, err
 		}
 		if settle {
 			time.Sleep(3 * time.Millisecond)
 		}
-		n := 0
+		n := map[string]bool{}
 		for i, x := range worlds {
-			n += len(x.Store.DistinctLoads(marks[i]))
+			for name := range x.Store.DistinctLoads(marks[i]) {
+				n[name] = true
+			}
 		}
 		return n, nil
 	}
@@ -225,6 +235,99 @@ func runC15(c C15Case, o *run.Obs) error {
 	}
 	bound := 2*d + 2
 	names := []string{"DiffIter", "DiffLinks", "StartDiff/NextEntry"}
+	// Open known finding "diff-loads-shared-nodes-adjacent-to-change": the diff opens shared nodes that
+	// hang directly below a differing node (when its two traversal stacks are misaligned it needs their
+	// keys) and, inside its de-duplication helper, follows the key-less chain below a differing link down
+	// to the first node with a key. The excusable set E is exactly that: shared children of nodes that
+	// belong to one version only, the key-less shared nodes below them, and the first keyed node ending
+	// such a chain - restricted to children that are DISPLACED, i.e. whose depth or inherited key interval
+	// differs between the two versions (a shared child in the same position on both sides is skipped by the
+	// real code and stays fully counted). While the finding is open, loads inside E are not counted (and are tallied).
+	excusable := map[string]bool{}
+	node := func(name string) *ref.Node {
+		if n := nOld[name]; n != nil {
+			return n
+		}
+		return nNew[name]
+	}
+	isShared := func(name string) bool { return nOld[name] != nil && nNew[name] != nil }
+	// position of every node in each version: depth below the root and the key interval inherited from its ancestors
+	type position struct {
+		depth  int
+		lo, hi string
+	}
+	positions := func(nodes map[string]*ref.Node, root string) map[string]position {
+		out := map[string]position{}
+		var walk func(name string, p position)
+		walk = func(name string, p position) {
+			n := nodes[name]
+			if n == nil {
+				return
+			}
+			out[name] = p
+			for i, l := range n.Links {
+				if l == "" {
+					continue
+				}
+				cp := position{depth: p.depth + 1, lo: p.lo, hi: p.hi}
+				if i > 0 {
+					cp.lo = "k:" + string(n.Keys[i-1])
+				}
+				if i < len(n.Keys) {
+					cp.hi = "k:" + string(n.Keys[i])
+				}
+				walk(l, cp)
+			}
+		}
+		if root != "" {
+			walk(root, position{})
+		}
+		return out
+	}
+	posOld := positions(nOld, core.RootOf(oldSR.Root).Link)
+	posNew := positions(nNew, core.RootOf(newSR.Root).Link)
+	// a shared node in the same position (depth and key interval) on both sides is met by both traversal
+	// stacks at the same time and skipped; only displaced shared nodes below a change are excusable
+	displaced := func(name string) bool { return posOld[name] != posNew[name] }
+	for _, side := range []map[string]*ref.Node{nOld, nNew} {
+		for name, n := range side {
+			if isShared(name) {
+				continue
+			}
+			for _, l := range n.Links {
+				if l == "" || !isShared(l) || !displaced(l) {
+					continue
+				}
+				for l != "" && isShared(l) && !excusable[l] {
+					excusable[l] = true
+					if cn := node(l); cn != nil && len(cn.Keys) == 0 {
+						l = cn.Links[0]
+					} else {
+						break
+					}
+				}
+			}
+		}
+	}
+	judge := func(what string, set map[string]bool) error {
+		n := len(set)
+		if d == 0 && n != 0 {
+			return fmt.Errorf("%s: %s on a version and itself loaded %d nodes, expected none", desc, what, n)
+		}
+		if n <= bound {
+			return nil
+		}
+		outside := 0
+		for name := range set {
+			if !excusable[name] {
+				outside++
+			}
+		}
+		if outside <= bound && o.Excl("diff-loads-shared-nodes-adjacent-to-change") {
+			return nil
+		}
+		return fmt.Errorf("%s: %s loaded %d distinct nodes (%d of them other than shared nodes directly below a change); the versions differ in D=%d nodes (bound 2D+2=%d; %d shared nodes, old %d, new %d)", desc, what, n, outside, d, bound, shared, len(nOld), len(nNew))
+	}
 	var li int
 	// each interface is measured on freshly opened trees (a warm cache would hide reads)
 	for which := 0; which < 3; which++ {
@@ -233,33 +336,26 @@ func runC15(c C15Case, o *run.Obs) error {
 			o.Label("aborted:base-failure")
 			return nil
 		}
-		loads, err := countingDiff(w, oldT.M, newT.M, c.ColdCache, wNew)
+		sets, err := countingDiffSets(w, oldT.M, newT.M, c.ColdCache, wNew)
 		if err != nil {
 			o.Label("aborted:diff-failed(C06/C07)")
 			return nil
 		}
-		n := loads[which]
 		if !c.ColdCache {
 			// without a cache every interface can be measured in the same run
 			for j := 0; j < 3; j++ {
-				if loads[j] > bound {
-					return fmt.Errorf("%s: %s loaded %d distinct nodes; the versions differ in D=%d nodes (bound 2D+2=%d; %d shared nodes, old %d, new %d)", desc, names[j], loads[j], d, bound, shared, len(nOld), len(nNew))
-				}
-				if d == 0 && loads[j] != 0 {
-					return fmt.Errorf("%s: %s on a version and itself loaded %d nodes, expected none", desc, names[j], loads[j])
+				if err := judge(names[j], sets[j]); err != nil {
+					return err
 				}
 			}
-			li = loads[0]
+			li = len(sets[0])
 			break
 		}
 		if which == 0 {
-			li = n
+			li = len(sets[0])
 		}
-		if n > bound {
-			return fmt.Errorf("%s: with a cold node cache, %s loaded %d distinct nodes; the versions differ in D=%d nodes (bound 2D+2=%d; %d shared nodes)", desc, names[which], n, d, bound, shared)
-		}
-		if d == 0 && n != 0 {
-			return fmt.Errorf("%s: with a cold node cache, %s on a version and itself loaded %d nodes, expected none", desc, names[which], n)
+		if err := judge("with a cold node cache, "+names[which], sets[which]); err != nil {
+			return err
 		}
 	}
 	// the same version opened twice: no loads at all
